@@ -195,7 +195,16 @@ func (multi *MultiEpoch) handleGetSignaturesForAddress(ctx context.Context, conn
 	// The response is an array of objects: [{signature: string}]
 	response := make([]map[string]any, countTransactions(foundTransactions))
 	numBefore := 0
-	for ei := range foundTransactions {
+	// The response lists the newest epoch first: iterate the epochs in descending
+	// order (ranging over the map would use a random order).
+	foundEpochs := make([]uint64, 0, len(foundTransactions))
+	for epochNum := range foundTransactions {
+		foundEpochs = append(foundEpochs, epochNum)
+	}
+	sort.Slice(foundEpochs, func(i, j int) bool {
+		return foundEpochs[i] > foundEpochs[j]
+	})
+	for _, ei := range foundEpochs {
 		epoch := ei
 		ser, err := multi.GetEpoch(epoch)
 		if err != nil {
